@@ -62,7 +62,7 @@ def user_names(d, case=None):
     return out
 
 
-def make_record(gen, idx, case, d, mode, nexec, rng, hashseed, want_tree=True):
+def make_record(gen, idx, case, d, mode, nexec, rng, hashseed, want_tree=True, want_flow=False):
     import specs, gens, export
     rec = dict(gen=gen, idx=idx, mode=mode, hashseed=hashseed, yaml=d, case=case, ok=False)
     c = specs.compile_spec(d, mode)
@@ -77,6 +77,12 @@ def make_record(gen, idx, case, d, mode, nexec, rng, hashseed, want_tree=True):
         except export.ExportError as e:
             rec["tree_error"] = str(e)
     rec["user"] = user_names(d, case)
+    if want_flow:
+        import flow
+        try:
+            rec["flow"] = flow.flow_info(d, mode)
+        except Exception as e:
+            rec["flow_error"] = "%s: %s" % (type(e).__name__, str(e)[:200])
     rec["execs"] = []
     if case is not None and nexec:
         for _ in range(nexec):
@@ -111,7 +117,7 @@ def worker(job, outpath):
                         continue
                     for mode in specs.modes_of(d):
                         if mode in modes:
-                            rec = make_record("corpus:" + name, 0, None, d, mode, 0, rng, hs)
+                            rec = make_record("corpus:" + name, 0, None, d, mode, 0, rng, hs, want_flow=item.get("flow", False))
                             out.write(json.dumps(rec) + "\n")
                 continue
             if gen == "g7":
@@ -131,7 +137,7 @@ def worker(job, outpath):
                             continue
                         gens.add_spacetime(rng, cc, lo)
                         dd = gens.to_yaml_dict(cc)
-                    rec = make_record(gen, i, cc, dd, mode, nexec, rng, hs)
+                    rec = make_record(gen, i, cc, dd, mode, nexec, rng, hs, want_flow=item.get("flow", False))
                     out.write(json.dumps(rec) + "\n")
 
 
